@@ -2,7 +2,7 @@
 //! the model in lock-step with a configurable set of observers.
 
 use crate::driver::{overlay_of, Cfg, CommitOpts, Db, Fail, Fs, HK};
-use crate::gen::{self, BatchSpec, Budget};
+use crate::gen::{self, BatchSpec, Budget, Bulk};
 use crate::model::{root_of, MOp, Map, Model};
 use crate::observe;
 use crate::reftrie::Node;
@@ -142,6 +142,58 @@ pub fn history_strategy(p: HistParams) -> impl Strategy<Value = History> {
         prop::collection::vec(step, 1..=p.max_steps),
     )
         .prop_map(|(salt, cfg, steps)| History { salt, cfg, steps })
+}
+
+/// Forced shape "bottom-level branch node filled to the byte": one bulk insert of values of 1331..1332 bytes
+/// (exactly two fit a leaf) sized so that the single branch node addressing the leaves is 90..99% full (its
+/// capacity depends on the separator length, i.e. on the shared key prefix `plen`: 6 bytes + ~(plen + 11.5) bits per
+/// leaf), then 50..70 commits inserting mostly ONE more such value each (an insert into a leaf holding two splits
+/// it, i.e. adds one separator of varying bit length and one pointer to the node), so that the node's size walks
+/// through its capacity of 4086 bytes in steps of 7..10 bytes and a fraction of the cases builds a node that is
+/// exactly full / exactly one byte too large before it splits. Half of the cases go on with a delete of a tenth and
+/// more inserts.
+pub fn bbn_fill_strategy(ext4_weight: u32) -> impl Strategy<Value = History> {
+    (
+        any::<u64>(),
+        gen::cfg_strategy(Just(false).boxed(), ext4_weight),
+        900u32..=990,
+        prop::collection::vec((any::<u64>(), prop_oneof![3 => Just(1u16), 1 => 2u16..=3]), 50..=70),
+        0u8..4,
+        prop::sample::select(vec![0u8, 0, 3, 9, 17]),
+        any::<bool>(),
+    )
+        .prop_map(|(salt, cfg, permille, adds, cluster, plen, shrink)| {
+            let commit = |bulk: Bulk| {
+                Step::Commit(CommitSpec {
+                    batch: BatchSpec { entries: Vec::new(), bulk: Some(bulk) },
+                    via: Via::Session,
+                    witness: false,
+                    warm_mask: 0,
+                    preserve_mask: 0,
+                    nonblocking: false,
+                })
+            };
+            // leaves one branch node can address: 4086 / (6 + (plen + 11.5) / 8)
+            let cap_leaves = 4086.0 / (6.0 + (plen as f64 + 11.5) / 8.0);
+            let n0 = (2.0 * cap_leaves * permille as f64 / 1000.0) as u16;
+            let ins = |seed: u64, n: u16| Bulk::Insert { seed, n, cluster, plen, vlo: 1331, vhi: 1332 };
+            let mut steps = vec![commit(ins(salt ^ 0x5eed, n0))];
+            for (seed, n) in &adds {
+                steps.push(commit(ins(*seed, *n)));
+            }
+            if shrink {
+                steps.push(commit(Bulk::Delete { seed: salt ^ 0xde1, permille: 100 }));
+                for (seed, n) in adds.iter().take(8) {
+                    steps.push(commit(ins(seed ^ 0xabcd, *n + 6)));
+                }
+            }
+            History { salt, cfg, steps }
+        })
+}
+
+pub fn is_bbn_fill(h: &History) -> bool {
+    h.steps.len() >= 51
+        && matches!(&h.steps[0], Step::Commit(c) if c.batch.entries.is_empty() && matches!(c.batch.bulk, Some(Bulk::Insert { n, vlo: 1331, vhi: 1332, .. }) if n >= 600))
 }
 
 // ---------------------------------------------------------------- scratch dirs
@@ -977,6 +1029,13 @@ impl<'a, H: HK> Runner<'a, H> {
             crate::decode::check_values(&d, view).map_err(|m| viol(i, format!("on-disk image does not decode to the model: {m}")))?;
             self.info.max("max_leaves", d.n_leaves as u64);
             self.info.max("max_bbn", d.n_bbn as u64);
+            self.info.max("max_branch_node_body_bytes_of_4086", d.max_bbn_body as u64);
+            if d.max_bbn_body >= 4079 {
+                self.info.bump("images_with_branch_node_within_8_bytes_of_capacity");
+            }
+            if d.max_bbn_body == 4086 {
+                self.info.bump("images_with_branch_node_exactly_full");
+            }
             self.info.max("max_free_ln", (d.ln_free.entries.len() + d.ln_free.list_pages.len()) as u64);
             self.info.max("max_free_list_pages_ln", d.ln_free.list_pages.len() as u64);
             self.info.max("max_ht_tombstones", d.ht_tombstones as u64);
